@@ -86,8 +86,8 @@ def step (st : St) (tok : List String) (_line : String) (impl : Option String) :
       let m2 := match kind with
         | .socket => (Handshake.step st.env m1 (.drop p)).1
         | _ => m1
-      let (seen', verdict) := match impl with
-        | none => (st.seen, "ok")
+      let (seen', verdict) := match impl.filter (·.startsWith "r=") with
+        | none => (st.seen, "ok")                 -- no line / crash line: reported by the framework
         | some il =>
           let it := il.splitOn " "
           let after : C20Spec.Seen := { key := kvStr it "sk" "-", sessionKey := kvStr it "sm" "-", rep := kvInt it "rep" 0 }
